@@ -7,6 +7,7 @@ mod smem;
 mod k3;
 mod k4;
 mod tree;
+mod trees;
 mod k5;
 mod k6;
 mod k7;
@@ -40,6 +41,8 @@ fn main() {
         "k2" => k2::run(rest),
         "k3" => k3::run(rest),
         "k4" => k4::run(rest),
+        "k4t" => trees::k4t(rest),
+        "s12" => trees::s12(rest),
         "k5" => k5::run(rest),
         "k6" => k6::run(rest),
         "k7" => k7::run(rest),
